@@ -33,8 +33,9 @@ type rpStmt struct {
 	Attr   int    `json:"attr"` // 1-based attribute index
 	Sign   int    `json:"sign"` // +1: factor*m >= bound, -1: factor*m <= bound
 	Factor uint   `json:"factor"`
-	Delta  string `json:"delta"` // sign*(factor*m - bound), decimal; negative => false statement
-	Three  bool   `json:"three"` // three-squares table splitter
+	Delta  string `json:"delta"`                 // sign*(factor*m - bound), decimal; negative => false statement
+	Three  bool   `json:"three"`                 // three-squares table splitter
+	Small  bool   `json:"small_table,omitempty"` // with Three: the table of limit 1000 (length not a power of 4) instead of 4095
 }
 
 type C12Spec struct {
@@ -56,8 +57,18 @@ var (
 	table     *rangeproof.SquaresTable
 )
 
-func squaresTable() *rangeproof.SquaresTable {
-	tableOnce.Do(func() { table = rangeproof.GenerateSquaresTable(tableLimit) })
+const smallTableLimit = 1000
+
+var smallTable *rangeproof.SquaresTable
+
+func squaresTable(small bool) *rangeproof.SquaresTable {
+	tableOnce.Do(func() {
+		table = rangeproof.GenerateSquaresTable(tableLimit)
+		smallTable = rangeproof.GenerateSquaresTable(smallTableLimit)
+	})
+	if small {
+		return smallTable
+	}
 	return table
 }
 
@@ -108,11 +119,22 @@ func drawRangeSpec(rt *rapid.T, allowFalse bool) C12Spec {
 		case 3:
 			d = big.NewInt(int64(rapid.SampledFrom([]int{tableLimit, tableLimit - 1, tableLimit - 2, tableLimit / 4, tableLimit/4 + 1, 1, 2, 3}).Draw(rt, "dedge")))
 		default:
-			d = randBits(hrand(rapid.Uint64().Draw(rt, "ds"), 4), rapid.IntRange(1, 250).Draw(rt, "dbits"))
+			// up to the documented limit: differences below 2^256 (the top bit lengths 254..256 twice as often)
+			d = randBits(hrand(rapid.Uint64().Draw(rt, "ds"), 4), rapid.SampledFrom([]int{0, 0, 254, 255, 256, 256}).Draw(rt, "dtop")+0)
+			if d.Sign() == 0 {
+				d = randBits(hrand(rapid.Uint64().Draw(rt, "ds2"), 4), rapid.IntRange(1, 256).Draw(rt, "dbits"))
+			}
 		}
-		if st.Three && d.Cmp(big.NewInt(tableLimit)) > 0 {
-			// the table holds entries "up-to and including limit": that is its domain
-			d = new(big.Int).Mod(d, big.NewInt(tableLimit+1))
+		if st.Three {
+			st.Small = rapid.IntRange(0, 2).Draw(rt, "smalltable") == 0
+			lim := int64(tableLimit)
+			if st.Small {
+				lim = smallTableLimit
+			}
+			if d.Cmp(big.NewInt(lim)) > 0 {
+				// the table holds entries "up-to and including limit": that is its domain
+				d = new(big.Int).Mod(d, big.NewInt(lim+1))
+			}
 		}
 		if allowFalse && rapid.IntRange(0, 2).Draw(rt, "false") == 0 {
 			d = big.NewInt(int64(-rapid.IntRange(1, 2).Draw(rt, "fdelta")))
@@ -191,7 +213,7 @@ func buildRangeWorld(r *kernel.Run, s C12Spec) *rangeWorld {
 		}
 		var sp rangeproof.SquareSplitter
 		if st.Three {
-			sp = squaresTable()
+			sp = squaresTable(st.Small)
 		}
 		stm := &rangeproof.Statement{Sign: st.Sign, Factor: st.Factor, Bound: bound, Splitter: sp}
 		rw.stmts[st.Attr] = append(rw.stmts[st.Attr], stm)
